@@ -9,7 +9,7 @@ extra = sys.argv[4:]
 ROOT = os.environ.get("SEED_ROOT", "/tmp/seed")
 wt = "%s/%s" % (ROOT, ID)
 sd = "/verif/seeded/%s%s" % (ID, os.environ.get("SEED_SUFFIX", ""))
-env = dict(os.environ, CARGO_NET_OFFLINE="true", CARGO_TARGET_DIR="/tmp/seed/target-confirm")
+env = dict(os.environ, CARGO_NET_OFFLINE="true", CARGO_TARGET_DIR=os.environ.get("CONFIRM_TARGET", "/tmp/seed/target-confirm"))
 cdir = {"grin_chain": "chain", "grin_core": "core", "grin_store": "store", "grin_pool": "pool", "grin_p2p": "p2p",
         "grin_keychain": "keychain", "grin_util": "util", "grin_servers": "servers", "grin_api": "api"}[crate]
 def sh(cmd, **kw):
